@@ -180,6 +180,45 @@ def run(ctx: Any, prog: Program) -> None:
                 continue
             ctx.check('C15.F1', bool(wattrs & rattrs), vtf, wa or hw[0], f'header slot {i}: read() stores it into {sorted(rattrs)} (via `{rn}`) but save() packs `{U(wa)[:50]}`', func='VTF.save',
                       text=f'header slot {i} {rn}')
+    # a test of save() is a *version gate* when it depends on the version being written - the `version` parameter (defaulted from
+    # self.version), its two halves, a local computed from them, or a helper method that is handed one of them.  A gate that goes back to
+    # self.version (directly, or through a helper method that reads it and is not given the version) ignores save(version=...): the header
+    # says one version and the layout is that of another.
+    ver_names = {vminor_w, 'version'} | {e.id for a in walk_no_nested(sv) if isinstance(a, ast.Assign) and dotted(a.value) == 'version' for t in a.targets for e in ast.walk(t) if isinstance(e, ast.Name)}
+    sv_locals: Dict[str, List[ast.AST]] = {}
+    for a in walk_no_nested(sv):
+        if isinstance(a, ast.Assign):
+            for t in a.targets:
+                if isinstance(t, ast.Name):
+                    sv_locals.setdefault(t.id, []).append(a.value)
+    def _gate_kind(t: ast.AST, depth: int = 0) -> Optional[str]:
+        kinds: Set[str] = set()
+        for x in ast.walk(t):
+            if isinstance(x, ast.Name) and x.id in ver_names:
+                kinds.add('param')
+            elif isinstance(x, ast.Name) and x.id in sv_locals and depth < 3 and x.id not in ver_names:
+                for d in sv_locals[x.id]:
+                    k = _gate_kind(d, depth + 1)
+                    if k:
+                        kinds.add(k)
+            elif isinstance(x, ast.Attribute) and dotted(x) == 'self.version':
+                kinds.add('self')
+            elif isinstance(x, ast.Call) and isinstance(x.func, ast.Attribute) and dotted(x.func.value) == 'self' and x.func.attr in vm and depth < 3:
+                hb = vm[x.func.attr]
+                if any(dotted(y) == 'self.version' for y in ast.walk(hb) if isinstance(y, ast.Attribute)):
+                    given = any(isinstance(y, ast.Name) and y.id in ver_names for a_ in list(x.args) + [k_.value for k_ in x.keywords] for y in ast.walk(a_))
+                    kinds.add('param' if given else 'self')
+        return 'self' if 'self' in kinds else ('param' if kinds else None)
+    n_gates = 0
+    for q in walk_no_nested(sv):
+        if isinstance(q, (ast.If, ast.IfExp, ast.While)) and not (isinstance(q, ast.If) and U(q.test).replace(' ', '') == 'versionisNone'):
+            gk = _gate_kind(q.test)
+            if gk is None:
+                continue
+            n_gates += 1
+            ctx.check('C15.F1', gk == 'param', vtf, q, f'save() decides `{U(q.test)[:50]}` from self.version, not from the version it was asked to write: with save(version=...) the header carries the requested version '
+                      'while this part of the file is laid out for the object\'s own one (resource table present or absent, offsets shifted)', func='VTF.save', text=f'gate `{U(q.test)[:40]}` follows the written version')
+    ctx.shape('C15.F1', n_gates >= 5, vtf, sv, f'{n_gates} version gates found in save() (at least 5 confirmed by hand)', func='VTF.save', text='version gates of save()')
     # resource count = entries written
     # the count is whatever save() packs into the `<3xI8x` resource header
     cnt_packs = [c for c in walk_no_nested(sv) if isinstance(c, ast.Call) and dotted(c.func) == 'struct.pack' and len(c.args) == 2 and isinstance(c.args[0], ast.Constant) and expand(str(c.args[0].value)) == expand('<3xI8x')
@@ -220,7 +259,7 @@ def run(ctx: Any, prog: Program) -> None:
                 q = parents.get(p)
                 if isinstance(q, ast.For):
                     in_loop = True
-                if isinstance(q, ast.If) and vminor_w not in {x.id for x in ast.walk(q.test) if isinstance(x, ast.Name)} and p in q.body:
+                if isinstance(q, ast.If) and _gate_kind(q.test) is None and p in q.body:
                     guard = U(q.test)
                 p = q
             if in_loop:
@@ -996,6 +1035,24 @@ def run(ctx: Any, prog: Program) -> None:
             rebinds6 = [x for x in ast.walk(fr_) if isinstance(x, ast.Name) and x.id == nm6 and isinstance(x.ctx, ast.Store) and not any(x is e for e in hdr[0].targets[0].elts)]
             ctx.check('C15.F6', not rebinds6, vtf, rebinds6[0] if rebinds6 else hdr[0], f'`{nm6}`, which holds the {prm6} field of the sequence header, is assigned again at line {rebinds6[0].lineno if rebinds6 else 0} before it reaches '
                       'the constructor: the sequence gets that later value (the last frame\'s duration) instead of the stored total', func='SheetSequence.from_resource', text=f'sequence header {prm6} not re-bound')
+    # validation: make_data writes the count, each sequence number (an arbitrary dict key) and each frame count independently of one another,
+    # so a guard of from_resource that relates two values read from the data (`seq_num < sequence_count`) rejects what make_data produces
+    # (a sheet holding only sequence 5).  Every raising guard tests one unpacked value against constants / what has been read so far.
+    unp6: Set[str] = set()
+    for a6 in ast.walk(fr_):
+        if isinstance(a6, ast.Assign) and isinstance(a6.value, ast.Call) and (dotted(a6.value.func) or '').split('.')[-1] in ('unpack_from', 'unpack'):
+            unp6 |= {e.id for t6 in a6.targets for e in ast.walk(t6) if isinstance(e, ast.Name)}
+    n_guard6 = 0
+    for if6 in [i for i in ast.walk(fr_) if isinstance(i, ast.If) and i.body and isinstance(i.body[0], ast.Raise)]:
+        for cmp6 in [c for c in ast.walk(if6.test) if isinstance(c, ast.Compare)]:
+            sides6 = [cmp6.left] + list(cmp6.comparators)
+            per_side = [{x.id for x in ast.walk(sd) if isinstance(x, ast.Name) and x.id in unp6} for sd in sides6]
+            n_guard6 += 1
+            related = [(a, b) for i6, a in enumerate(per_side) for b in per_side[i6 + 1:] if a and b and a != b]
+            ctx.check('C15.F6', not related, vtf, cmp6, f'from_resource rejects the data when `{U(if6.test)[:60]}`: it relates `{"`, `".join(sorted(set().union(*per_side)))}`, values make_data writes independently of each other '
+                      '(the count is len(sequences), sequence numbers are arbitrary keys) - a sheet whose sequence numbers are not 0..n-1 is written and cannot be read back', func='SheetSequence.from_resource',
+                      text=f'guard `{U(cmp6)[:40]}` tests one value read from the data')
+    ctx.shape('C15.F6', n_guard6 >= 3, vtf, fr_, f'{n_guard6} raising guards found in from_resource (version, count, number range, duplicate confirmed by hand)', func='SheetSequence.from_resource', text='validation guards')
     # the sheet layout is the caller's choice (`sheet_seq_version`), and it applies to the whole sheet: layout 0 keeps one coordinate per frame.
     # save() hands the parameter to make_data as it came; a switch to the smaller layout decided by what *some* sequence looks like (`any`)
     # drops coordinates 2-4 of all the others.  (Decided by `all`, the switch would be lossless - that is content reasoning this check does
@@ -1091,6 +1148,8 @@ def accepted_region(test: ast.AST, coords: Tuple[str, str] = ('x', 'y')) -> Dict
 
 
 MUTANTS: List[Dict[str, Any]] = [
+    {'id': 'resource_gate_from_own_version', 'file': 'vtf.py', 'find': "        if version_minor >= 3:\n            deferred.set_data('low_res', file.tell())", 'replace': "        if self.version >= (7, 3):\n            deferred.set_data('low_res', file.tell())", 'expect': 'C15.F1', 'note': 'round 11'},
+    {'id': 'sequence_number_bounded_by_count', 'file': 'vtf.py', 'find': "            if not (0 <= seq_num < SheetSequence.MAX_COUNT):", 'replace': "            if seq_num >= sequence_count:", 'expect': 'C15.F6', 'note': 'round 11'},
     {'id': 'sequence_total_shares_name_with_frame_duration', 'file': 'vtf.py', 'find': "                frame_count,\n                total_time,\n            ) = struct.unpack_from('<Ixxx?If', data, offset)", 'replace': "                frame_count,\n                duration,\n            ) = struct.unpack_from('<Ixxx?If', data, offset)", 'extra': [{'file': 'vtf.py', 'find': "            sequences[seq_num] = SheetSequence(frames, clamp, total_time)", 'replace': "            sequences[seq_num] = SheetSequence(frames=frames, clamp=clamp, duration=duration)"}], 'expect': 'C15.F6'},
     {'id': 'save_parks_sheet_in_resources', 'file': 'vtf.py', 'find': "            res_count = len(self.resources) + 2  # low/high format are always present.\n", 'replace': "            if self.sheet_info:\n                self.resources[ResourceID.PARTICLE_SHEET] = Resource(0, b'')\n            res_count = len(self.resources) + 2  # low/high format are always present.\n", 'expect': 'C15.F7'},
     {'id': 'no_mip_textures_saved_with_one_level', 'file': 'vtf.py', 'find': "        deferred.defer('header_size', '<I')\n", 'replace': "        mipmap_count = self.mipmap_count\n        if VTFFlags.NO_MIP in self.flags:\n            mipmap_count = min(mipmap_count, 1)\n        deferred.defer('header_size', '<I')\n", 'extra': [{'file': 'vtf.py', 'find': "            self.mipmap_count,\n            self.low_format.bin_value(asw_or_later),", 'replace': "            mipmap_count,\n            self.low_format.bin_value(asw_or_later),"}, {'file': 'vtf.py', 'find': "        for data_mipmap in reversed(range(self.mipmap_count)):\n            for frame_ind in range(self.frame_count):\n                for depth_or_cube in depth_seq:\n                    frame = self._frames[", 'replace': "        for data_mipmap in reversed(range(mipmap_count)):\n            for frame_ind in range(self.frame_count):\n                for depth_or_cube in depth_seq:\n                    frame = self._frames["}], 'expect': 'C15.F2'},
